@@ -578,6 +578,50 @@ def t4_min_max_ties(ctx: Ctx):
         raise ShapeError(f'only {n} operand tuples evaluated')
 
 
+def t5_negated_literals(ctx: Ctx):
+    """`-e` is the arithmetic node Neg(e), rounded under the active context like every other operation; a literal is the
+    exact real it spells and is never rounded.  The parser may fold the sign into the literal only where that cannot be
+    told apart: a zero (where the fold is what keeps the sign) and an integer.  `Parser._parse_unaryop` is evaluated,
+    from its source, on one operand of every literal class, a variable and an operation."""
+    from fractions import Fraction
+
+    from ..minipy import Interp, Obj
+    L = lang(ctx.repo)
+    fn = ctx.fn(PARSER, 'Parser._parse_unaryop')
+
+    def lit(kind, val, q, real=None):
+        return Obj(kind, val=val, p=q.numerator, q=q.denominator, m=q.numerator, e=-1, b=10, as_rational=lambda: q, as_real=lambda: q if real is None else real)
+    operands = {
+        '0.1': lit('Decnum', '0.1', Fraction(1, 10)), '2.5': lit('Decnum', '2.5', Fraction(5, 2)), '1e-3': lit('Decnum', '0.001', Fraction(1, 1000)),
+        '0x1.8p0': lit('Hexnum', '0x1.8p0', Fraction(3, 2)), 'rational(1, 3)': lit('Rational', None, Fraction(1, 3)),
+        'digits(1, -1, 10)': lit('Digits', None, Fraction(1, 10)), 'x': Obj('Var', name='x'), 'x + y': Obj('Add', first='x', second='y'),
+        '3': lit('Integer', 3, Fraction(3)), '0.0': lit('Decnum', '0.0', Fraction(0)), '0': lit('Integer', 0, Fraction(0)),
+        '-0.0 (folded)': lit('Decnum', '-0.0', Fraction(0), Obj('Float', s=True)),
+    }
+    made = lambda kind: (lambda *a, **k: Obj(kind, args=a))  # noqa: E731
+    n = 0
+    for text, arg in operands.items():
+        it = Interp({}, {}, is_a=lambda k, c: k == c or (k in L.classes and c in L.classes and L.is_a(k, c)),
+                    overrides={'self._parse_expr': lambda x: x, 'self._parse_location': lambda e: 'loc', 'self._parse_error': lambda *a: None,
+                               **{k: made(k) for k in ('Neg', 'Not', 'Decnum', 'Integer', 'Hexnum', 'Rational', 'Digits')}})
+        got = it.call_function(fn, [Obj('UnaryOp', op=Obj('ast.USub'), operand=arg)], bound_self=True)
+        n += 1
+        is_neg = isinstance(got, Obj) and got.kind == 'Neg' and got.fields['args'][0] is arg
+        if arg.kind in ('Var', 'Add') or (arg.fields['as_rational']() != 0 and arg.kind != 'Integer'):
+            ctx.check(is_neg, PARSER, fn, 'Parser._parse_unaryop', f'`-{text}` is the operation Neg({arg.kind})',
+                      f'parsed to {got!r}: the negated operand is no longer an arithmetic node, so it is never rounded under the active context '
+                      '(`with fp.FP32: x = -0.1` keeps the exact -1/10, and `-0.1 * y` rounds once instead of twice)')
+        elif arg.kind == 'Integer' and arg.fields['val'] != 0:
+            good = is_neg or (isinstance(got, Obj) and got.kind == 'Integer' and got.fields['args'][0] == -arg.fields['val'])
+            ctx.check(good, PARSER, fn, 'Parser._parse_unaryop', f'`-{text}` is Neg(Integer) or the integer literal {-arg.fields["val"]}', f'parsed to {got!r}')
+        else:
+            want = '0.0' if text.startswith('-') else '-0.0'
+            good = isinstance(got, Obj) and got.kind == 'Decnum' and got.fields['args'][0] == want
+            ctx.check(good, PARSER, fn, 'Parser._parse_unaryop', f'`-({text.split()[0]})` is the signed zero literal {want}', f'parsed to {got!r}')
+    if n < 12:
+        raise ShapeError('operand table shrank')
+
+
 def f3_strict_helpers(ctx: Ctx):
     def ret_template(q):
         fn = ctx.fn(BYTE, q)
@@ -736,6 +780,7 @@ RULES = [
     Rule('C04.T2', 'callee context: declared, else passed, else IEEE double', t2_func_ctx, 7, 'T'),
     Rule('C04.T3', 'boundary table: a Python bool/int/float/RealFloat/Fraction argument enters as exactly the number it is', scalar_arms, 8, 'T'),
     Rule('C04.T4', 'min / max: NaN first, value by order, a tie of zeros by sign (-0 for min, +0 for max) whatever the operand order and kind', t4_min_max_ties, 2, 'T'),
+    Rule('C04.T5', 'a negated operand is the operation Neg; the sign folds into the literal only for a zero and an integer', t5_negated_literals, 12, 'T'),
     Rule('C04.F2', 'FPy-to-FPy calls share arguments; nothing rounds on entry; boundary conversion only when convert', f2_call_boundary, 6, 'F'),
     Rule('C04.F3', 'strict helpers are used for index, slice, zip, len, any/all, min/max, ==, orderings, range', f3_strict_helpers, 15, 'F'),
 ]
@@ -760,6 +805,13 @@ MUTANTS = [
            "    result: list = [UNINIT for _ in range(dims_list[-1])]\n    for n in reversed(dims_list[:-1]):\n        result = [list(result) for _ in range(n)]\n    return result", 'C04.G1',
            'seeded change C04b: inside-out construction with shallow copies'),
     Mutant('empty-rows-one-template', OPS, "        return [_empty(dims_list[1:]) for _ in range(dims_list[0])]", "        row = _empty(dims_list[1:])\n        return [row for _ in range(dims_list[0])]", 'C04.G1'),
+    Mutant('negated-decimal-folded', PARSER, "                elif isinstance(arg, Integer):\n                    return Integer(-arg.val, loc)\n",
+           "                elif isinstance(arg, Integer):\n                    return Integer(-arg.val, loc)\n                elif isinstance(arg, Decnum):\n                    val = arg.val[1:] if arg.val.startswith('-') else f'-{arg.val}'\n                    return Decnum(val, loc)\n", 'C04.T5',
+           'seeded change C04d: `-0.1` is a literal, never rounded'),
+    Mutant('negated-rational-folded', PARSER, "                elif isinstance(arg, Integer):\n                    return Integer(-arg.val, loc)\n",
+           "                elif isinstance(arg, Integer):\n                    return Integer(-arg.val, loc)\n                elif isinstance(arg, Rational):\n                    return Rational(-arg.p, arg.q, loc)\n", 'C04.T5'),
+    Mutant('negated-zero-is-an-operation', PARSER, "                    if isinstance(arg.as_real(), Float):\n                        return Decnum('0.0', loc)\n                    return Decnum('-0.0', loc)", "                    return Neg(arg, loc)", 'C04.T5',
+           'under REAL the negation of +0 loses the sign'),
     Mutant('parser-sinh-is-sin', PARSER, '    sinh: Sinh,', '    sinh: Sin,', 'C04.T1'),
     Mutant('parser-fmod-is-remainder', PARSER, '    fmod: Fmod,', '    fmod: Remainder,', 'C04.T1'),
     Mutant('interp-floor-is-ceil', BYTE, '    Floor: ops.floor,', '    Floor: ops.ceil,', 'C04.T1'),
